@@ -71,6 +71,7 @@ structure World where
   cg : Option Nat := none               -- command_giver
   ec : Bool := true                     -- eval_cost == CONFIG_INT (__MAX_EVAL_COST__)
   restrict : Option Nat := none         -- restrict_destruct (set while move_or_destruct() of an item runs)
+  co : List (Nat × List Op) := []       -- pending call_outs (object, what its callback does), oldest first; all due at the next dispatch
   rp : List Nat := []                   -- obj_list_replace (head = newest entry)
   replaced : List Nat := []             -- objects whose program has been replaced
   crashed : Bool := false
@@ -207,8 +208,10 @@ def stepOpBasic (w : World) (self : Nat) (op : Op) : World × List Ev × Status 
   | .reload t n =>
     if !w.alive t || t < 2 then (w, [.reloadNone self t], .ok)
     else
-      -- lib/lpc/object.c reload_object: variables cleared, O_ENABLE_COMMANDS cleared, set_heart_beat (obj, 0), create()
-      let w1 := setHeartBeat { w with living := w.living.filter (· != t), nb := fun o => if o = t then 0 else w.nb o } t 0
+      -- lib/lpc/object.c reload_object: variables cleared, O_ENABLE_COMMANDS cleared, set_heart_beat (obj, 0),
+      -- remove_all_call_out (obj), create()
+      let w1 := setHeartBeat { w with living := w.living.filter (· != t), nb := fun o => if o = t then 0 else w.nb o,
+                                      co := w.co.filter (fun c => c.1 != t) } t 0    -- remove_all_call_out (obj)
       let w2 := setHeartBeat w1 t (NV.Gen.C11.efunSat n)
       (w2, [.reload self t n (queryHeartBeat w2 t)], .ok)
   | .living => ({ w with living := self :: w.living, cg := some self }, [.living self], .ok)
@@ -387,7 +390,7 @@ def hbOn (tf : Int) : Bool := decide ((tf / (NV.Gen.C11.timerFlagHeartbeat : Nat
     `NV.Gen.C11.roundEntry` = everything up to the while loop (heart_beat_flag = 0, num_hb_to_do = num_hb_objs, the
     `(timer_flags & TIMER_FLAG_HEARTBEAT) && num_hb_to_do > 0` guard, heart_beat_index = 0), `roundSkip` = what is left
     when the guard fails (heart_beat_index and num_hb_to_do keep their values, current_heart_beat = 0) -/
-def tickCore (sc : Scripts) (w : World) : World × List Ev :=
+def tickRound (sc : Scripts) (w : World) : World × List Ev :=
   let e := NV.Gen.C11.roundEntry (w.hbs.length : Int) w.idx w.todo (if w.flag then 1 else 0) w.tflags
   let begin : Ev := if hbOn w.tflags then .tickBegin else .tickOff
   let w : World := { w with flag := decide (e.2.2.1 ≠ 0), idx := e.1, todo := e.2.1 }
@@ -395,6 +398,39 @@ def tickCore (sc : Scripts) (w : World) : World × List Ev :=
     match round sc w.hbs.length w with
     | (w', evs) => (w', begin :: evs)
   else (leave w (NV.Gen.C11.roundSkip w.idx w.todo (curInt w)), [begin, .tickEnd])
+
+/-- does timer_flags have TIMER_FLAG_CALLOUT -/
+def coOn (tf : Int) : Bool := decide ((tf / (NV.Gen.C11.timerFlagCallout : Nat)) % 2 ≠ 0)
+
+/-- lib/efuns/call_out.c call_out(), one due entry: skipped when its object is destructed, else the callback runs inside
+    call_out()'s own error context - an uncaught error goes through error_handler (which switches off
+    current_heart_beat IF one is set) and the dispatch goes on with the next entry -/
+def coStep (acc : World × List Ev) (c : Nat × List Op) : World × List Ev :=
+  if !acc.1.alive c.1 then acc
+  else
+    match runOps acc.1 c.1 c.2 with
+    | (w', evs, .err) => (errorEntry w', acc.2 ++ .coBegin c.1 :: evs)
+    | (w', evs, _) => (w', acc.2 ++ .coBegin c.1 :: evs ++ [.coEnd c.1])
+
+/-- the tail of call_heart_beat: `if (timer_flags & TIMER_FLAG_CALLOUT) call_out ();` - AFTER `current_heart_beat = 0`
+    (`NV.Gen.C11.chbTail`); call_out() puts command_giver back when it is done -/
+def coLoop : Nat → World × List Ev → World × List Ev
+  | 0, acc => acc
+  | f + 1, acc =>
+    match acc.1.co with
+    | [] => acc
+    | c :: rest => coLoop f (coStep ({ acc.1 with co := rest }, acc.2) c)   -- unlinked before it runs; a callback may
+                                                                            -- remove later ones (reload_object)
+
+def coDispatch (r : World × List Ev) : World × List Ev :=
+  if coOn r.1.tflags then
+    let d := coLoop r.1.co.length (r.1, [])
+    ({ d.1 with cg := r.1.cg }, r.2 ++ d.2)
+  else r
+
+/-- src/backend.c call_heart_beat: the round, then (unless an error left the function) the call_out dispatch -/
+def tickCore (sc : Scripts) (w : World) : World × List Ev :=
+  if (tickRound sc w).2.contains .tickAbort then tickRound sc w else coDispatch (tickRound sc w)
 
 /-- harness rule: at most this many further passes with a round inside one `tick` command -/
 def maxPass : Nat := 5
@@ -433,7 +469,14 @@ inductive Cmd where
   | tick
   | op (self : Nat) (op : Op)
   | tflags (n : Nat)                    -- MAIN_OPTION (timer_flags) = n
+  | cotick (cbs : List (Nat × List Op)) -- schedule call_outs in the named (live) objects, then one tick with TIMER_FLAG_CALLOUT
   deriving Repr
+
+/-- `cotick`: call_out ("co", 1, ops) in every named live object, TIMER_FLAG_CALLOUT on for the tick that follows -/
+def coWorld (w : World) (cbs : List (Nat × List Op)) : World :=
+  -- new_call_out links an entry in FRONT of the entries of the same second: the callbacks of one `cotick` run newest first
+  { w with co := w.co ++ (cbs.filter (fun c => w.alive c.1)).reverse,
+           tflags := if coOn w.tflags then w.tflags else w.tflags + (NV.Gen.C11.timerFlagCallout : Nat) }
 
 def stepCmd (sc : Scripts) (w : World) : Cmd → World × List Ev
   | .tick => if w.crashed then (w, []) else tick sc w
@@ -446,6 +489,9 @@ def stepCmd (sc : Scripts) (w : World) : Cmd → World × List Ev
       | (w', evs, .err) => (errorEntry w', evs ++ [.topErr self])
       | (w', evs, _) => (w', evs)
   | .tflags n => if w.crashed then (w, []) else ({ w with tflags := (n : Int) }, [.tflags (n : Int)])
+  | .cotick cbs =>
+    if w.crashed then (w, [])
+    else ({ (tick sc (coWorld w cbs)).1 with tflags := w.tflags }, (tick sc (coWorld w cbs)).2)
 
 def runCmds (sc : Scripts) (w : World) : List Cmd → World × List Ev
   | [] => (w, [])
